@@ -1,11 +1,15 @@
 """
 gen_c11.py — translator part for C11: Gen/Row.lean (Row._unique_field_names as a loop kind + suffix format)
 and Gen/Actions.lean (which statement list each action sends: the `optimize` flag handed to
-`_get_expressions`, whether show()/count() wrap first, isEmpty's composition).
+`_get_expressions`, whether show()/count() wrap first, isEmpty's composition; WHICH LIMIT node of the statement
+`limit` consults before it merges -- the open SELECT's own, or the first one anywhere in the tree (CTE bodies
+included) --, where it puts the new LIMIT, where show() takes its rows from and what count() counts).
 """
 from __future__ import annotations
 
 import ast
+import re
+import typing as t
 
 from translate import HEADER, Untranslatable, find_class, find_func, parse
 
@@ -71,6 +75,91 @@ def _optimize_flag(fn: ast.FunctionDef, ob: str) -> bool:
     return True  # _get_expressions' default
 
 
+def _strip_doc(body: t.Sequence[ast.stmt]) -> t.List[ast.stmt]:
+    return [s for s in body if not (isinstance(s, ast.Expr) and isinstance(s.value, ast.Constant) and isinstance(s.value.value, str))]
+
+
+def _limit_lookup(fn: ast.FunctionDef) -> str:
+    """`limit(self, num)`: which LIMIT node is consulted before merging.
+
+    understood shapes (anything else is Untranslatable):
+        [if limit_exp := <lookup>:  num = <merge>(num, int(limit_exp.expression.this))]
+        return self.copy(expression=self.expression.limit(num))
+    or the same with `limit_exp = <lookup>` followed by `if limit_exp:` / `if limit_exp is not None:`;
+    <lookup> is  self.expression.args.get('limit')   -> ownBlock   (the LIMIT of the statement's outer SELECT)
+             or  self.expression.args['limit']        -> Untranslatable (raises when absent)
+             or  self.expression.find(exp.Limit)      -> wholeTree  (breadth-first over the whole tree, WITH clause included)
+    """
+    ob = "Gen.Actions.limit"
+    args = [a.arg for a in fn.args.args]
+    if args != ["self", "num"] or fn.args.vararg or fn.args.kwarg or fn.args.kwonlyargs:
+        raise Untranslatable(ob, f"unexpected signature ({', '.join(args)})")
+    body = _strip_doc(fn.body)
+    if not body or not isinstance(body[-1], ast.Return) or body[-1].value is None:
+        raise Untranslatable(ob, "limit does not end in a return")
+    ret = ast.unparse(body[-1].value)
+    if ret != "self.copy(expression=self.expression.limit(num))":
+        raise Untranslatable(ob, f"the LIMIT is not put on a copy of the statement's outer SELECT: {ret[:100]}")
+    pre = body[:-1]
+    if not pre:
+        return "noLookup"
+    var, lookup, guard = None, None, None
+    if len(pre) == 1 and isinstance(pre[0], ast.If) and isinstance(pre[0].test, ast.NamedExpr):
+        guard = pre[0]
+        var, lookup = ast.unparse(guard.test.target), guard.test.value
+    elif (
+        len(pre) == 2
+        and isinstance(pre[0], ast.Assign)
+        and len(pre[0].targets) == 1
+        and isinstance(pre[0].targets[0], ast.Name)
+        and isinstance(pre[1], ast.If)
+        and ast.unparse(pre[1].test) in (pre[0].targets[0].id, pre[0].targets[0].id + " is not None")
+    ):
+        guard = pre[1]
+        var, lookup = pre[0].targets[0].id, pre[0].value
+    else:
+        raise Untranslatable(ob, "unexpected statements before the return: " + "; ".join(ast.unparse(x)[:60] for x in pre))
+    if guard.orelse or len(guard.body) != 1:
+        raise Untranslatable(ob, "the guard has an else branch or more than one statement")
+    st = guard.body[0]
+    want = re.compile(r"^num = (min|max)\((num, int\(%s\.expression\.this\)|int\(%s\.expression\.this\), num)\)$" % (re.escape(var), re.escape(var)))
+    if not want.match(ast.unparse(st)):
+        raise Untranslatable(ob, f"unexpected use of the LIMIT found: {ast.unparse(st)[:100]}")
+    lk = ast.unparse(lookup)
+    if lk == "self.expression.args.get('limit')":
+        return "ownBlock"
+    if lk == "self.expression.find(exp.Limit)":
+        return "wholeTree"
+    raise Untranslatable(ob, f"unknown place to look for an existing LIMIT: {lk[:100]}")
+
+
+def _show_rows(fn: ast.FunctionDef) -> None:
+    """show(): the printed rows are `<self | df>.limit(n).collect()`, every one of them is added, in order"""
+    ob = "Gen.Actions.show"
+    res = [s for s in fn.body if isinstance(s, ast.Assign) and ast.unparse(s.targets[0]) == "result"]
+    if len(res) != 1 or ast.unparse(res[0].value) not in ("self.limit(n).collect()", "df.limit(n).collect()"):
+        raise Untranslatable(ob, "show() does not take its rows from `limit(n).collect()`")
+    loops = [n for n in ast.walk(fn) if isinstance(n, ast.For)]
+    if len(loops) != 1 or ast.unparse(loops[0].iter) != "result" or [ast.unparse(x) for x in loops[0].body] != ["table.add_row(list(row))"]:
+        raise Untranslatable(ob, "show() does not add every collected row to the table")
+    hdr = [n for n in ast.walk(fn) if isinstance(n, ast.Assign) and ast.unparse(n.targets[0]) == "table.field_names"]
+    if len(hdr) != 1 or ast.unparse(hdr[0].value) != "row._unique_field_names":
+        raise Untranslatable(ob, "show() does not take its header from `row._unique_field_names`")
+
+
+def _count_expr(fn: ast.FunctionDef) -> None:
+    """count(): `select('count(*)', ...)` on the wrapped statement, the answer is the first cell of the first row"""
+    ob = "Gen.Actions.count"
+    sel = [n for n in ast.walk(fn) if isinstance(n, ast.Call) and isinstance(n.func, ast.Attribute) and n.func.attr == "select"]
+    if len(sel) != 1 or len(sel[0].args) != 1 or not (isinstance(sel[0].args[0], ast.Constant) and str(sel[0].args[0].value).replace(" ", "").lower() == "count(*)"):
+        raise Untranslatable(ob, "count() does not select count(*)")
+    if ast.unparse(sel[0].func.value) != "df.expression":
+        raise Untranslatable(ob, f"count() selects from {ast.unparse(sel[0].func.value)[:60]}, not from the wrapped statement")
+    body = _strip_doc(fn.body)
+    if ast.unparse(body[-1]) != "return df.collect()[0][0]":
+        raise Untranslatable(ob, "count() does not return the first cell of the first row")
+
+
 def gen_actions(repo: str) -> str:
     df = find_class(parse(repo, "sqlframe/base/dataframe.py"), "BaseDataFrame")
     duck = find_class(parse(repo, "sqlframe/duckdb/dataframe.py"), "DuckDBDataFrame")
@@ -109,6 +198,21 @@ def gen_actions(repo: str) -> str:
     if "if n is None:\n        return seq_get(collected, 0)\n    return collected" not in src:
         raise Untranslatable(ob, "head's result selection has an unknown shape")
     out.append("def headNoneReturnsFirst : Bool := true")
+    if "collected = df.collect()" not in src:
+        raise Untranslatable(ob, "head does not collect the limited DataFrame")
+    # limit: which LIMIT node it consults
+    out.append("/-- where `limit(n)` looks for a LIMIT to merge with: the statement's outer SELECT (`args.get('limit')`), the first")
+    out.append("    LIMIT node anywhere in the tree, CTE bodies included (`find(exp.Limit)`), or nowhere -/")
+    out.append("inductive LimitLookup | ownBlock | wholeTree | noLookup deriving DecidableEq, Repr")
+    out.append(f"def limitLookup : LimitLookup := .{_limit_lookup(find_func(df.body, 'limit'))}")
+    out.append("/-- `limit` returns `self.copy(expression=self.expression.limit(num))`: the new LIMIT goes on a copy of the outer SELECT -/")
+    out.append("def limitOnOuterCopy : Bool := true")
+    _show_rows(find_func(df.body, "show"))
+    out.append("/-- show() prints every row of `limit(n).collect()` under `row._unique_field_names` -/")
+    out.append("def showViaLimitCollect : Bool := true")
+    _count_expr(find_func(df.body, "count"))
+    out.append("/-- count() is the first cell of `select('count(*)')` over the wrapped statement -/")
+    out.append("def countStarOverWrapped : Bool := true")
     out.append("")
     out.append("end Sqlframe.Gen")
     return "\n".join(out) + "\n"
